@@ -4,7 +4,7 @@ import nodecheck
 PROFILE = dict(outbound=0.5)
 W = nodecheck.weights(close=2.5, readerr=2, accept=5, cer=9, tick=5)
 N_QUICK, N_THOROUGH, LENGTH = 60, 1500, 18
-THEMES = (("handshake_in", 2, 60, 3, 600), ("handshake_out", 2, 60, 3, 600), ("ready", 2, 40, 2, 2000))
+THEMES = (("handshake_in", 2, 60, 3, 600), ("handshake_out", 2, 60, 3, 600), ("ready", 2, 40, 2, 2000), ("two_peers", 300, 0, None, 0))
 FILES = ["Props/C13.v"]
 
 
@@ -43,7 +43,56 @@ def corpus():
     return [("corpus: CEA with another peer's identity", cfg, ev), ("corpus: second connection from a connected peer", cfg2, ev2)]
 
 
+def self_closing(run):
+    """Histories in which a connection closes ITSELF (its reader meets bytes that cannot be a Diameter header) — with
+    and without unsent output, one or two connections at the same moment.  The node model has no event for this, so the
+    implementation is judged directly: afterwards the connection is in none of the node's tables, its socket is closed,
+    and its peer no longer references it."""
+    import nodesim as NS
+    for variant in ("plain", "stalled-with-output", "two-at-once", "two-at-once-stalled"):
+        cfg = NS.default_cfg()
+        cfg["peers"].append(dict(cfg["peers"][0], name="cli1.example.net"))
+        r = NS.Run(cfg, seed=3)
+        try:
+            r.apply(dict(ev="start", dials=[]))
+            cids = [0] if variant in ("plain", "stalled-with-output") else [0, 1]
+            for k in cids:
+                r.apply(dict(ev="accept", hbh0=100 + k, dials=[]))
+                r.apply(dict(ev="recv", cid=k, dials=[], frames=[NS.build_message(dict(kind="cer", host="cli%d.example.net" % k, hbh=1, e2e=1))]))
+            if "stalled" in variant:
+                for k in cids:
+                    r.apply(dict(ev="stall", cid=k, on=True, dials=[]))
+                    r.apply(dict(ev="recv", cid=k, dials=[], frames=[NS.build_message(dict(kind="dwr", host="cli%d.example.net" % k, hbh=7, e2e=7))]))
+            for k in cids:                       # all of them before the node runs again
+                r.remotes[k].feed(bytes(40))
+            r.sim.run()
+            r.sim.advance(2)
+            snap = r.snapshot()
+            node = r.node
+            run.count(1, [("self-closing", variant)])
+            left = {"connections": len(node.connections), "peer_sockets": len(node.peer_sockets), "socket_peers": len(node.socket_peers),
+                    "half_ready": len(node._half_ready_connections),
+                    "sockets_open": [k for k in cids if not r.remotes[k].closed_by_node],
+                    "peer_connection_set": [n for n, p in node.peers.items() if p.connection is not None]}
+            if any(v for v in left.values()):
+                run.violation("closed-nowhere", {"scenario": f"self-closing connection ({variant})"}, left,
+                              "no table entry, socket closed, peer.connection None",
+                              what="a connection that closed itself is still in the node's tables / its socket is open / its peer still references it")
+            if r.sim.thread_deaths:
+                run.violation("thread-death", {"scenario": f"self-closing connection ({variant})"}, r.sim.thread_deaths[:2])
+        finally:
+            r.shutdown()
+
+
 def check(run):
+    # the self-closing histories are judged right after the obligations; their violations are reported by the common finish()
+    orig_obligations = run.obligations
+
+    def obligations_then_self_closing(files):
+        out = orig_obligations(files)
+        self_closing(run)
+        return out
+    run.obligations = obligations_then_self_closing
     return nodecheck.run(run, "C13", FILES, PROFILE, W, N_QUICK, N_THOROUGH, LENGTH, themes=THEMES, known=known, extra_scenarios=corpus())
 
 
